@@ -18,7 +18,7 @@ import subprocess
 import sys
 
 VERIF = os.path.dirname(os.path.dirname(os.path.abspath(__file__)))
-SCRATCH = "/tmp/seedtest_repo"
+SCRATCH = "/tmp/seedtest_repo_{}".format(os.getpid())
 PY = "/venv/bin/python"
 
 
